@@ -670,8 +670,10 @@ func CreatorsFromCreateEvent(createEvent PDU) (creators []string) {
 	var content CreateContent
 	err := json.Unmarshal(createEvent.Content(), &content)
 	if err != nil {
-		// should not be possible as we already have made the PDU
-		panic("invalid create event content: " + string(createEvent.JSON()))
+		// Parsing an event does not look into its content, so a create event
+		// received over federation can have any content at all. It then has no
+		// (valid) additional creators; the auth rules reject it where that matters.
+		return creators
 	}
 	creators = append(creators, content.AdditionalCreators...)
 	return creators
